@@ -150,6 +150,12 @@ func runScenario(src io.ReaderAt, size int64, mode pdf.ReaderErrorHandling, pw s
 	for pass := 1; pass <= 2; pass++ {
 		for _, ref := range refs {
 			s, err := pdf.Decode(cu, ref, decodeOuter)
+			if err != nil && !errors.Is(err, errInjected) && pdf.IsMalformed(err) {
+				// e.g. an object whose body is a reference to itself: the
+				// complaint about the file is the result, with and without
+				// faults
+				s, err = outerText("malformed: "+err.Error()), nil
+			}
 			out = append(out, stepResult{name: fmt.Sprintf("Decode#%d %s", pass, ref), digest: string(s), err: err})
 		}
 	}
@@ -159,9 +165,10 @@ func runScenario(src io.ReaderAt, size int64, mode pdf.ReaderErrorHandling, pw s
 // Two decoders with distinct result types (the Extractor caches per
 // reference and type).  decodeOuter renders an object and decodes every
 // reference directly inside it with decodeLeaf, which renders the target
-// without following references.  The result for a reference is therefore a
-// function of the file alone and does not depend on the order in which
-// references are decoded or on which earlier calls failed.
+// without following references.  The result for a reference is a function of
+// the file alone and does not depend on the order in which references are
+// decoded or on which earlier calls failed (see leafDirect for the one place
+// where pdf.Decode itself depends on the state of the cache).
 type outerText string
 type leafText string
 
@@ -170,6 +177,30 @@ func decodeLeaf(c pdf.Cursor, obj pdf.Object, direct bool) (leafText, error) {
 		return leafText("stream " + pdf.AsString(stm.Dict)), nil
 	}
 	return leafText(pdf.AsString(obj)), nil
+}
+
+// leafDirect renders the target of ref like decodeLeaf does, using the Getter
+// alone: a function of the file, whatever the Extractor has cached.
+func leafDirect(g pdf.Getter, ref pdf.Reference) (leafText, error) {
+	var obj pdf.Object = ref
+	for hops := 0; ; hops++ {
+		r, isRef := obj.(pdf.Reference)
+		if !isRef {
+			break
+		}
+		if hops == 8 {
+			return "chain of references", nil
+		}
+		next, err := g.Get(r, true)
+		if err != nil {
+			if errors.Is(err, errInjected) || !pdf.IsMalformed(err) {
+				return "", err
+			}
+			return "malformed", nil
+		}
+		obj = next
+	}
+	return decodeLeaf(pdf.Cursor{}, obj, false)
 }
 
 func decodeOuter(c pdf.Cursor, obj pdf.Object, direct bool) (outerText, error) {
@@ -183,9 +214,14 @@ func decodeOuter(c pdf.Cursor, obj pdf.Object, direct bool) (outerText, error) {
 				if errors.Is(err, errInjected) || !pdf.IsMalformed(err) {
 					return err
 				}
-				// a reference cycle, or a broken target: part of the result
-				fmt.Fprintf(&b, "<%s: malformed>", v)
-				return nil
+				// A complaint about the file.  Whether Decode reports a
+				// reference cycle here depends on what the Extractor has
+				// cached (the cache is consulted before the cycle check), so
+				// the target is rendered without Decode instead.
+				s, err = leafDirect(c.Getter(), v)
+				if err != nil {
+					return err
+				}
 			}
 			fmt.Fprintf(&b, "<%s: %s>", v, s)
 		case pdf.Array:
